@@ -108,7 +108,8 @@ func (a verifC14Addr) String() string  { return a.s }
 // verifC14Conn: the nsqd side of one TCP connection. The real IOLoop of the connection runs in
 // its own goroutine; whenever it asks for more input it first reports "idle" (everything sent
 // so far has been processed and answered), then waits for the next chunk of the stream; closing
-// `in` is the peer hanging up.
+// `in` is the peer hanging up. (Both channels have room for one element: neither side ever blocks
+// in a send, which is what the native schedule replay of the engine needs.)
 type verifC14Conn struct {
 	addr    string
 	in      chan []byte
@@ -249,21 +250,17 @@ type verifC14World struct {
 
 func verifC14NewWorld() *verifC14World {
 	// Clock and thresholds: every clock reading is the previous one plus a fresh step of k bits
-	// and both thresholds range over all k+3-bit values, so every ordering of the instants,
-	// every exact-threshold coincidence and every "several steps add up to more / less than the
-	// threshold" case is covered (answers depend only on differences of instants compared with
-	// the thresholds). Wrap-around of huge durations is outside the claim. Thresholds are drawn
-	// from an unsigned type, so no Assume - and no solver call - is needed to range them.
-	var inact, life time.Duration
-	if verifrt.Bound("clockStepBits", 5, 13) == 5 {
-		verifrt.ClockSteps(5)
-		inact = time.Duration(verifrt.Byte("inactiveProducerTimeout"))
-		life = time.Duration(verifrt.Byte("tombstoneLifetime"))
-	} else {
-		verifrt.ClockSteps(13)
-		inact = time.Duration(verifrt.Uint16("inactiveProducerTimeout"))
-		life = time.Duration(verifrt.Uint16("tombstoneLifetime"))
-	}
+	// (0 .. 2^k-1 ns) and both thresholds range over all values of k+3 bits. Every answer depends
+	// only on comparisons between sums of consecutive steps and a threshold; small magnitudes
+	// realise every ordering of the instants, every exact-threshold coincidence and "several
+	// steps add up to more / less than the threshold" (the solver's cost grows exponentially
+	// with k: it bit-blasts these sums). Wrap-around of huge durations is outside the claim.
+	// Thresholds are masked unsigned values, so no Assume - and no solver call - ranges them.
+	k := verifrt.Bound("clockStepBits", 2, 3)
+	verifrt.ClockSteps(k)
+	mask := byte(1)<<uint(k+3) - 1
+	inact := time.Duration(verifrt.Byte("inactiveProducerTimeout") & mask)
+	life := time.Duration(verifrt.Byte("tombstoneLifetime") & mask)
 	verifrt.ClockRange(1<<60, 1<<61)
 	opts := &Options{
 		LogLevel:                lg.FATAL,
@@ -308,7 +305,7 @@ func (w *verifC14World) connect(p int) {
 	if p == 1 {
 		addr = "10.0.0.2:5000"
 	}
-	conn := &verifC14Conn{addr: addr, in: make(chan []byte), ev: make(chan int)}
+	conn := &verifC14Conn{addr: addr, in: make(chan []byte, 1), ev: make(chan int, 1)}
 	client := NewClientV1(conn)
 	w.peers[p] = verifC14Peer{conn: conn, client: client}
 	verifrt.Go("ioloop", func() {
